@@ -293,6 +293,7 @@ func (f *Frame) addObl(kind, label, reach, goal string, local []string, localQ [
 	}
 	o := &Obligation{Name: name, Func: f.prefix, Kind: kind, Label: label, Mode: e.mode, Reach: reach, Goal: goal, Local: local, LocalQ: localQ, Decls: decls, prelude: e.pre}
 	o.snap()
+	o.weakB2I = e.weakB2I
 	if e.curPos.IsValid() {
 		o.Pos = e.prog.Fset.Position(e.curPos).String()
 	}
@@ -588,6 +589,18 @@ func (f *Frame) mergeVals(t types.Type, vs []Val, es []edge, name string) Val {
 		c := e.fresh("phi."+name, e.layout(t)[i])
 		for k, v := range vs {
 			e.assume(es[k].reach, eq(c, v.C[i]))
+		}
+		if i == 0 {
+			switch t.Underlying().(type) {
+			case *types.Slice, *types.Pointer, *types.Basic:
+				if _, _, isInt := intInfo(t); !isInt && !isBoolType(t) {
+					for _, v := range vs {
+						if v.C[0] != "0" {
+							e.alias(c, v.C[0])
+						}
+					}
+				}
+			}
 		}
 		r.C = append(r.C, c)
 	}
@@ -1353,6 +1366,9 @@ func (f *Frame) bindLarge(v ssa.Value) {
 		}
 		n := e.fresh("v."+v.Name(), sorts[i])
 		e.pre.asserts.WriteString("(assert (= " + n + " " + c + "))\n")
+		if strings.HasPrefix(sorts[i], "(Array ") {
+			e.alias(n, arrKey(c))
+		}
 		if !changed {
 			val.C = append([]string(nil), val.C...)
 			changed = true
